@@ -351,6 +351,14 @@ theorem step_auth (w : World) (op : Op σ) :
   | setTime now =>
     left
     exact SameAuth.rfl' _
+  | upgrade auths =>
+    left
+    obtain ⟨b, hb⟩ := step_upgrade_fst H V w auths
+    rw [hb]; exact ⟨rfl, rfl, rfl, rfl⟩
+  | migrate auths =>
+    left
+    obtain ⟨b, hb⟩ := step_migrate_fst H V w auths
+    rw [hb]; exact ⟨rfl, rfl, rfl, rfl⟩
 
 
 theorem initSets_cons_ok (now : Nat) (ws : WSigners) (rest : List WSigners) (st st'' : State) (evs : List Event)
